@@ -39,6 +39,127 @@ func runC12(p *Prog, r *Report) {
 	c12Arithmetic(p, r)
 	c12ParseErrors(p, r)
 	c12UnixMilli(p, r)
+	c12RuneErrorWidth(p, r)
+	c12ZoneDropped(p, r)
+}
+
+// R12.7: netip.ParseAddr accepts a zoned IPv6 address ("fe80::1%eth0"); netip.PrefixFrom silently drops the zone. A
+// parser that feeds one into the other without looking at Zone() accepts text outside the documented syntax and returns
+// a value that is not what was written.
+func c12ZoneDropped(p *Prog, r *Report) {
+	const rule = "R12.7-no-silent-zone"
+	n := 0
+	for _, fn := range p.Funcs {
+		if fnPkgPath(fn) != pTypes {
+			continue
+		}
+		for _, cl := range callsIn(fn) {
+			call, ok := cl.(*ssa.Call)
+			if !ok {
+				continue
+			}
+			f := call.Call.StaticCallee()
+			if f == nil || fnPkgPath(f) != "net/netip" || f.Name() != "ParseAddr" {
+				continue
+			}
+			addr := extractOf(call, 0)
+			if addr == nil {
+				continue
+			}
+			toPrefix, zoneTested := false, false
+			usesTransitively(addr, func(in ssa.Instruction) bool {
+				if c2, ok := in.(ssa.CallInstruction); ok {
+					if g := c2.Common().StaticCallee(); g != nil && fnPkgPath(g) == "net/netip" {
+						switch g.Name() {
+						case "PrefixFrom":
+							toPrefix = true
+						case "Zone":
+							zoneTested = true
+						}
+					}
+				}
+				return true
+			})
+			// the address may be spilled to a local before its methods are called
+			forEachInstr(fn, func(in ssa.Instruction) {
+				if c2, ok := in.(ssa.CallInstruction); ok {
+					if g := c2.Common().StaticCallee(); g != nil && fnPkgPath(g) == "net/netip" && g.Name() == "Zone" {
+						zoneTested = true
+					}
+					if g := c2.Common().StaticCallee(); g != nil && fnPkgPath(g) == "net/netip" && g.Name() == "PrefixFrom" {
+						toPrefix = true
+					}
+				}
+			})
+			if !toPrefix {
+				continue
+			}
+			n++
+			r.Check(zoneTested, rule, fnQual(fn)+":ParseAddr", p.pos(call.Pos()), "a zoned address is looked at before the zone-less prefix is built",
+				fnShort(fn)+" turns the result of netip.ParseAddr into a prefix without looking at its zone: `ip(\"fe80::1%eth0\")` is accepted and the zone silently dropped, although the documented syntax has no zones")
+		}
+	}
+	if n == 0 {
+		r.Undec(rule, "types:ip-parser", "-", "no netip.ParseAddr → PrefixFrom path found in package types (anchor vanished)")
+	}
+}
+
+// R12.6: utf8.DecodeRune* returns (RuneError, 1) for malformed input, but U+FFFD itself is a valid scalar value that
+// decodes as (RuneError, 3). A decoder that treats `r == utf8.RuneError` alone as "malformed" rejects a legal character;
+// the width must be part of the test. (Two decoders in this repository: one tests both, so the other must too.)
+func c12RuneErrorWidth(p *Prog, r *Report) {
+	const rule = "R12.6-rune-error-width"
+	n := 0
+	for _, fn := range p.Funcs {
+		if testSupportPkgs[fnPkgPath(fn)] {
+			continue
+		}
+		for _, cl := range callsIn(fn) {
+			call, ok := cl.(*ssa.Call)
+			if !ok {
+				continue
+			}
+			f := call.Call.StaticCallee()
+			if f == nil || fnPkgPath(f) != "unicode/utf8" || !strings.HasPrefix(f.Name(), "Decode") {
+				continue
+			}
+			ch, size := extractOf(call, 0), extractOf(call, 1)
+			if ch == nil {
+				continue
+			}
+			comparesErr := false
+			for _, rf := range *ch.Referrers() {
+				if bo, ok := rf.(*ssa.BinOp); ok && (bo.Op == token.EQL || bo.Op == token.NEQ) {
+					for _, o := range []ssa.Value{bo.X, bo.Y} {
+						if k, ok := constInt(o); ok && k == 0xFFFD {
+							comparesErr = true
+						}
+					}
+				}
+			}
+			if !comparesErr {
+				continue
+			}
+			n++
+			testsWidth := false
+			if size != nil {
+				for _, rf := range *size.Referrers() {
+					if bo, ok := rf.(*ssa.BinOp); ok {
+						switch bo.Op {
+						case token.EQL, token.NEQ, token.LEQ, token.LSS, token.GTR, token.GEQ:
+							testsWidth = true
+						}
+					}
+				}
+			}
+			construct := fnQual(fn) + ":" + f.Name()
+			r.Check(testsWidth, rule, construct, p.pos(call.Pos()), "malformed input is recognised by (RuneError, width 1), so U+FFFD itself is accepted",
+				fnShort(fn)+" treats `r == utf8.RuneError` alone as a decoding failure: a validly encoded U+FFFD (which decodes to RuneError with width 3) is rejected, so a string or entity id containing it prints to text that does not parse back")
+		}
+	}
+	if n == 0 {
+		r.Undec(rule, "rune-decoders", "-", "no rune decoder that tests for utf8.RuneError was found (anchors vanished)")
+	}
 }
 
 func c12Arithmetic(p *Prog, r *Report) {
